@@ -752,8 +752,269 @@ pub fn units() -> Vec<Unit> {
             TraitFn("RegionHandler", "DynamicChannelPlan", "handle_new_channel"),
         ],
     },
+    // ---- builder R (discharging N's simulation hypotheses)
+    // C08: the bit operations of `ChannelMask<N>` (types.rs) over the byte array `self.0`; `N` is a parameter
+    Unit {
+        module: "Gen.ChannelMaskFn",
+        file: "lorawan-encoding/src/types.rs",
+        more_files: vec![],
+        imports: vec![],
+        items: vec![
+            Newtype("ChannelMask"),
+            // `N` of `impl<const N: usize> ChannelMask<N>` is the length of the array `self.0: [u8; N]`
+            ExternConst("N", "usize", "(Int.ofNat self._0.length)"),
+            Fn("ChannelMask::set_bank"),
+            Fn("ChannelMask::set_channel"),
+            Fn("ChannelMask::get_index"),
+            Fn("ChannelMask::channel_enabled"),
+            Fn("ChannelMask::is_enabled"),
+        ],
+    },
+    // C08: `Session::handle_downlink_macs` + `push_answer` — the per-command dispatch.  Abstract: parsing (the
+    // iterator `MacCommands` is the list of the `Result`s it yields; the payload views expose the fields the
+    // handler reads), the region (carrier of `MacRegionOps`: the twelve methods the handler calls).  Hand-written
+    // prelude (trusted): the answer creators as records of their settable fields and their serialisation.
+    // Translated for real: the `while let … next()` loop with `peek()` / `continue`, the `for` loop of identical
+    // answers, `push_answer`, `Uplink::add_mac_command`, `DLSettings::{rx1_dr_offset, rx2_data_rate}`,
+    // `del_to_delay_ms`, the variant list of `DownlinkMacCommand`.
+    Unit {
+        module: "Gen.SessionMacs",
+        file: "lorawan-device/src/mac/session.rs",
+        more_files: vec![
+            "lorawan-device/src/mac/mod.rs",
+            "lorawan-device/src/mac/uplink/mod.rs",
+            "lorawan-device/src/lib.rs",
+            "lorawan-device/src/region/constants.rs",
+            "lorawan-encoding/src/parser.rs",
+            "lorawan-encoding/src/types.rs",
+            "lorawan-encoding/src/packet_length.rs",
+            "lorawan-encoding/src/maccommands.rs",
+        ],
+        imports: vec!["LoraVerif.Gen.Region", "!LoraVerif.Gen.UplinkStatic", "LoraVerif.Gen.SessionRx"],
+        items: vec![
+            ExternUnit("Gen.SessionRx"),
+            ExternFnX("u8::into_DR", "u8.into_DR", &[("v", "u8")], "DR", &[], true),
+            Const("RECEIVE_DELAY1"),
+            Newtype("DLSettings"),
+            Fn("DLSettings::rx1_dr_offset"),
+            Fn("DLSettings::rx2_data_rate"),
+            Newtype("DataRateRange"),
+            Raw(SESSION_MACS_RAW1),
+            ExternStructRaw("SerializableMacCommand", &[("cid", "u8"), ("payload_bytes", "[u8]"), ("payload_len", "usize")]),
+            ExternFn("SerializableMacCommand::cid", "SerializableMacCommand.cid", &[("self", "SerializableMacCommand")], "u8"),
+            ExternFn("SerializableMacCommand::payload_bytes", "SerializableMacCommand.payload_bytes", &[("self", "SerializableMacCommand")], "[u8]"),
+            ExternFn("SerializableMacCommand::payload_len", "SerializableMacCommand.payload_len", &[("self", "SerializableMacCommand")], "usize"),
+            ExternStructRaw("ChannelMask", &[]),
+            ExternStructRaw("Datarate", &[]),
+            ExternStructRaw("Frequency", &[]),
+            ExternStructRaw("Redundancy", &[]),
+            ExternStructRaw("LinkCheckAnsPayload", &[]),
+            ExternStructRaw("LinkADRReqPayload", &[]),
+            ExternStructRaw("DutyCycleReqPayload", &[]),
+            ExternStructRaw("RXParamSetupReqPayload", &[]),
+            ExternStructRaw("DevStatusReqPayload", &[]),
+            ExternStructRaw("NewChannelReqPayload", &[]),
+            ExternStructRaw("RXTimingSetupReqPayload", &[]),
+            ExternStructRaw("TXParamSetupReqPayload", &[]),
+            ExternStructRaw("DlChannelReqPayload", &[]),
+            ExternStructRaw("DeviceTimeAnsPayload", &[]),
+            ExternFn("Frequency::value", "Frequency.value", &[("self", "Frequency")], "u32"),
+            ExternFn("Redundancy::channel_mask_control", "Redundancy.channel_mask_control", &[("self", "Redundancy")], "u8"),
+            ExternFn("LinkADRReqPayload::data_rate", "LinkADRReqPayload.data_rate", &[("self", "LinkADRReqPayload")], "DR"),
+            ExternFn("LinkADRReqPayload::tx_power", "LinkADRReqPayload.tx_power", &[("self", "LinkADRReqPayload")], "DR"),
+            ExternFn("LinkADRReqPayload::channel_mask", "LinkADRReqPayload.channel_mask", &[("self", "LinkADRReqPayload")], "ChannelMask"),
+            ExternFn("LinkADRReqPayload::redundancy", "LinkADRReqPayload.redundancy", &[("self", "LinkADRReqPayload")], "Redundancy"),
+            ExternFn("RXParamSetupReqPayload::dl_settings", "RXParamSetupReqPayload.dl_settings", &[("self", "RXParamSetupReqPayload")], "DLSettings"),
+            ExternFn("RXParamSetupReqPayload::frequency", "RXParamSetupReqPayload.frequency", &[("self", "RXParamSetupReqPayload")], "Frequency"),
+            ExternFn("NewChannelReqPayload::channel_index", "NewChannelReqPayload.channel_index", &[("self", "NewChannelReqPayload")], "u8"),
+            ExternFn("NewChannelReqPayload::frequency", "NewChannelReqPayload.frequency", &[("self", "NewChannelReqPayload")], "Frequency"),
+            ExternFn("NewChannelReqPayload::data_rate_range", "NewChannelReqPayload.data_rate_range", &[("self", "NewChannelReqPayload")], "Result<DataRateRange, Error>"),
+            ExternFn("DlChannelReqPayload::channel_index", "DlChannelReqPayload.channel_index", &[("self", "DlChannelReqPayload")], "u8"),
+            ExternFn("DlChannelReqPayload::frequency", "DlChannelReqPayload.frequency", &[("self", "DlChannelReqPayload")], "Frequency"),
+            ExternFn("RXTimingSetupReqPayload::delay", "RXTimingSetupReqPayload.delay", &[("self", "RXTimingSetupReqPayload")], "u8"),
+            EnumData("DownlinkMacCommand"),
+            Raw(SESSION_MACS_RAW2),
+            ExternStructRaw("DevStatusAnsCreator", &[]),
+            ExternStructRaw("DlChannelAnsCreator", &[]),
+            ExternStructRaw("LinkADRAnsCreator", &[]),
+            ExternStructRaw("NewChannelAnsCreator", &[]),
+            ExternStructRaw("RXParamSetupAnsCreator", &[]),
+            ExternStructRaw("RXTimingSetupAnsCreator", &[]),
+            ExternFn("DevStatusAnsCreator::new", "DevStatusAnsCreator.new", &[], "DevStatusAnsCreator"),
+            ExternFnX("DevStatusAnsCreator::set_battery", "DevStatusAnsCreator.set_battery", &[("self", "DevStatusAnsCreator"), ("battery", "u8")], "", &["self"], false),
+            ExternFnX("DevStatusAnsCreator::set_margin", "DevStatusAnsCreator.set_margin", &[("self", "DevStatusAnsCreator"), ("margin", "i8")], "Result<(), ()>", &["self"], true),
+            ExternFn("DlChannelAnsCreator::new", "DlChannelAnsCreator.new", &[], "DlChannelAnsCreator"),
+            ExternFnX("DlChannelAnsCreator::set_channel_frequency_ack", "DlChannelAnsCreator.set_channel_frequency_ack", &[("self", "DlChannelAnsCreator"), ("ack", "bool")], "", &["self"], false),
+            ExternFnX("DlChannelAnsCreator::set_uplink_frequency_exists_ack", "DlChannelAnsCreator.set_uplink_frequency_exists_ack", &[("self", "DlChannelAnsCreator"), ("ack", "bool")], "", &["self"], false),
+            ExternFn("LinkADRAnsCreator::new", "LinkADRAnsCreator.new", &[], "LinkADRAnsCreator"),
+            ExternFnX("LinkADRAnsCreator::set_channel_mask_ack", "LinkADRAnsCreator.set_channel_mask_ack", &[("self", "LinkADRAnsCreator"), ("ack", "bool")], "", &["self"], false),
+            ExternFnX("LinkADRAnsCreator::set_data_rate_ack", "LinkADRAnsCreator.set_data_rate_ack", &[("self", "LinkADRAnsCreator"), ("ack", "bool")], "", &["self"], false),
+            ExternFnX("LinkADRAnsCreator::set_tx_power_ack", "LinkADRAnsCreator.set_tx_power_ack", &[("self", "LinkADRAnsCreator"), ("ack", "bool")], "", &["self"], false),
+            ExternFn("NewChannelAnsCreator::new", "NewChannelAnsCreator.new", &[], "NewChannelAnsCreator"),
+            ExternFnX("NewChannelAnsCreator::set_channel_frequency_ack", "NewChannelAnsCreator.set_channel_frequency_ack", &[("self", "NewChannelAnsCreator"), ("ack", "bool")], "", &["self"], false),
+            ExternFnX("NewChannelAnsCreator::set_data_rate_range_ack", "NewChannelAnsCreator.set_data_rate_range_ack", &[("self", "NewChannelAnsCreator"), ("ack", "bool")], "", &["self"], false),
+            ExternFn("RXParamSetupAnsCreator::new", "RXParamSetupAnsCreator.new", &[], "RXParamSetupAnsCreator"),
+            ExternFnX("RXParamSetupAnsCreator::set_channel_ack", "RXParamSetupAnsCreator.set_channel_ack", &[("self", "RXParamSetupAnsCreator"), ("ack", "bool")], "", &["self"], false),
+            ExternFnX("RXParamSetupAnsCreator::set_rx2_data_rate_ack", "RXParamSetupAnsCreator.set_rx2_data_rate_ack", &[("self", "RXParamSetupAnsCreator"), ("ack", "bool")], "", &["self"], false),
+            ExternFnX("RXParamSetupAnsCreator::set_rx1_data_rate_offset_ack", "RXParamSetupAnsCreator.set_rx1_data_rate_offset_ack", &[("self", "RXParamSetupAnsCreator"), ("ack", "bool")], "", &["self"], false),
+            ExternFn("RXTimingSetupAnsCreator::new", "RXTimingSetupAnsCreator.new", &[], "RXTimingSetupAnsCreator"),
+            Raw(SESSION_MACS_RAW3),
+            ExternFn("RegionCfg::channel_mask_get", "MacRegionOps.channel_mask_get", &[("self", "RegionCfg")], "ChannelMask"),
+            ExternFn("RegionCfg::has_fixed_channel_plan", "MacRegionOps.has_fixed_channel_plan", &[("self", "RegionCfg")], "bool"),
+            ExternFnX("RegionCfg::channel_dl_update", "MacRegionOps.channel_dl_update", &[("self", "RegionCfg"), ("index", "u8"), ("freq", "u32")], "(bool, bool)", &["self"], true),
+            ExternFnX("RegionCfg::channel_mask_update", "MacRegionOps.channel_mask_update", &[("self", "RegionCfg"), ("channel_mask", "ChannelMask"), ("ch_mask_ctl", "u8"), ("ch_mask", "ChannelMask")], "Option<()>", &["channel_mask"], true),
+            ExternFn("RegionCfg::is_uplink_datarate", "MacRegionOps.is_uplink_datarate", &[("self", "RegionCfg"), ("dr", "u8")], "bool"),
+            ExternFnX("RegionCfg::check_tx_power", "MacRegionOps.check_tx_power", &[("self", "RegionCfg"), ("tx_power", "u8")], "Option<Option<u8>>", &[], true),
+            ExternFnX("RegionCfg::channel_mask_validate", "MacRegionOps.channel_mask_validate", &[("self", "RegionCfg"), ("channel_mask", "ChannelMask"), ("dr", "Option<DR>")], "bool", &[], true),
+            ExternFnX("RegionCfg::channel_mask_set", "MacRegionOps.channel_mask_set", &[("self", "RegionCfg"), ("channel_mask", "ChannelMask")], "", &["self"], false),
+            ExternFnX("RegionCfg::handle_new_channel", "MacRegionOps.handle_new_channel", &[("self", "RegionCfg"), ("index", "u8"), ("freq", "u32"), ("data_rates", "Option<DataRateRange>")], "(bool, bool)", &["self"], true),
+            ExternFn("RegionCfg::frequency_valid", "MacRegionOps.frequency_valid", &[("self", "RegionCfg"), ("f", "u32")], "bool"),
+            ExternFn("RegionCfg::rx1_dr_offset_validate", "MacRegionOps.rx1_dr_offset_validate", &[("self", "RegionCfg"), ("value", "u8")], "Option<u8>"),
+            ExternFn("RegionCfg::get_datarate", "MacRegionOps.get_datarate", &[("self", "RegionCfg"), ("dr", "u8")], "Option<Datarate>"),
+            Alias("MacCommands", "[Result<DownlinkMacCommand, ()>]"),
+            Fn("push_answer"),
+            Fn("Session::handle_downlink_macs"),
+        ],
+    },
     ]
 }
+
+/// Lean text of the abstract part of `Gen.SessionMacs`
+const SESSION_MACS_RAW1: &str = r#"/-- what `add_mac_command` observes of its `M: SerializableMacCommand` argument -/
+structure SerializableMacCommand where
+  cid : Int
+  payload_bytes : List Int
+  payload_len : Int
+  deriving DecidableEq, Repr
+/-- `ChannelMask<N>`: its bytes (the handler only passes masks between the region's methods) -/
+structure ChannelMask where
+  bytes : List Int
+  deriving DecidableEq, Repr
+/-! The payload views of the downlink MAC commands (maccommands.rs): the fields `handle_downlink_macs` reads.
+Parsing stays abstract — a command is what its accessors yield. -/
+structure Frequency where
+  value : Int
+  deriving DecidableEq, Repr
+structure Redundancy where
+  channel_mask_control : Int
+  deriving DecidableEq, Repr
+structure LinkCheckAnsPayload where
+  bytes : List Int
+  deriving DecidableEq, Repr
+structure LinkADRReqPayload where
+  data_rate : DR
+  tx_power : DR
+  channel_mask : ChannelMask
+  redundancy : Redundancy
+  deriving DecidableEq, Repr
+structure DutyCycleReqPayload where
+  bytes : List Int
+  deriving DecidableEq, Repr
+structure RXParamSetupReqPayload where
+  dl_settings : DLSettings
+  frequency : Frequency
+  deriving DecidableEq, Repr
+structure DevStatusReqPayload where
+  deriving DecidableEq, Repr
+structure NewChannelReqPayload where
+  channel_index : Int
+  frequency : Frequency
+  /-- `data_rate_range()`: `Err` when min > max -/
+  data_rate_range : Option DataRateRange
+  deriving DecidableEq, Repr
+structure RXTimingSetupReqPayload where
+  delay : Int
+  deriving DecidableEq, Repr
+structure TXParamSetupReqPayload where
+  bytes : List Int
+  deriving DecidableEq, Repr
+structure DlChannelReqPayload where
+  channel_index : Int
+  frequency : Frequency
+  deriving DecidableEq, Repr
+structure DeviceTimeAnsPayload where
+  bytes : List Int
+  deriving DecidableEq, Repr
+"#;
+const SESSION_MACS_RAW2: &str = r#"/-! The answer creators (maccommandcreator.rs; the structs and their `SerializableMacCommand` impls are
+macro-generated): hand-written mirror — a creator is the record of its settable fields, serialised as CID and
+status byte (bit 0, 1, 2 in the order of the LoRaWAN answer formats).  The margin byte is
+`Gen.UplinkStatic.DevStatusAnsCreator.set_margin.byte`, regenerated from the source. -/
+structure DevStatusAnsCreator where
+  battery : Int
+  margin : Int
+  deriving DecidableEq, Repr
+def DevStatusAnsCreator.new : DevStatusAnsCreator := ⟨0, 0⟩
+def DevStatusAnsCreator.set_battery (self : DevStatusAnsCreator) (battery : Int) : DevStatusAnsCreator := { self with battery := battery }
+/-- `set_margin`: `Err(MarginOutOfRange)` leaves the creator unchanged (outer `none`: a panic in the byte arithmetic) -/
+def DevStatusAnsCreator.set_margin (self : DevStatusAnsCreator) (margin : Int) : Option (Option Unit × DevStatusAnsCreator) :=
+  (Gen.UplinkStatic.DevStatusAnsCreator.set_margin.byte margin).map fun r =>
+    match r with
+    | some b => (some (), { self with margin := b })
+    | none => (none, self)
+instance : Coe DevStatusAnsCreator SerializableMacCommand := ⟨fun c => ⟨0x06, [c.battery, c.margin], 2⟩⟩
+structure DlChannelAnsCreator where
+  channel_frequency_ack : Bool
+  uplink_frequency_exists_ack : Bool
+  deriving DecidableEq, Repr
+def DlChannelAnsCreator.new : DlChannelAnsCreator := ⟨false, false⟩
+def DlChannelAnsCreator.set_channel_frequency_ack (self : DlChannelAnsCreator) (ack : Bool) : DlChannelAnsCreator := { self with channel_frequency_ack := ack }
+def DlChannelAnsCreator.set_uplink_frequency_exists_ack (self : DlChannelAnsCreator) (ack : Bool) : DlChannelAnsCreator := { self with uplink_frequency_exists_ack := ack }
+instance : Coe DlChannelAnsCreator SerializableMacCommand :=
+  ⟨fun c => ⟨0x0A, [Rt.b2i c.channel_frequency_ack + 2 * Rt.b2i c.uplink_frequency_exists_ack], 1⟩⟩
+structure LinkADRAnsCreator where
+  channel_mask_ack : Bool
+  data_rate_ack : Bool
+  tx_power_ack : Bool
+  deriving DecidableEq, Repr
+def LinkADRAnsCreator.new : LinkADRAnsCreator := ⟨false, false, false⟩
+def LinkADRAnsCreator.set_channel_mask_ack (self : LinkADRAnsCreator) (ack : Bool) : LinkADRAnsCreator := { self with channel_mask_ack := ack }
+def LinkADRAnsCreator.set_data_rate_ack (self : LinkADRAnsCreator) (ack : Bool) : LinkADRAnsCreator := { self with data_rate_ack := ack }
+def LinkADRAnsCreator.set_tx_power_ack (self : LinkADRAnsCreator) (ack : Bool) : LinkADRAnsCreator := { self with tx_power_ack := ack }
+instance : Coe LinkADRAnsCreator SerializableMacCommand :=
+  ⟨fun c => ⟨0x03, [Rt.b2i c.channel_mask_ack + 2 * Rt.b2i c.data_rate_ack + 4 * Rt.b2i c.tx_power_ack], 1⟩⟩
+structure NewChannelAnsCreator where
+  channel_frequency_ack : Bool
+  data_rate_range_ack : Bool
+  deriving DecidableEq, Repr
+def NewChannelAnsCreator.new : NewChannelAnsCreator := ⟨false, false⟩
+def NewChannelAnsCreator.set_channel_frequency_ack (self : NewChannelAnsCreator) (ack : Bool) : NewChannelAnsCreator := { self with channel_frequency_ack := ack }
+def NewChannelAnsCreator.set_data_rate_range_ack (self : NewChannelAnsCreator) (ack : Bool) : NewChannelAnsCreator := { self with data_rate_range_ack := ack }
+instance : Coe NewChannelAnsCreator SerializableMacCommand :=
+  ⟨fun c => ⟨0x07, [Rt.b2i c.channel_frequency_ack + 2 * Rt.b2i c.data_rate_range_ack], 1⟩⟩
+structure RXParamSetupAnsCreator where
+  channel_ack : Bool
+  rx2_data_rate_ack : Bool
+  rx1_data_rate_offset_ack : Bool
+  deriving DecidableEq, Repr
+def RXParamSetupAnsCreator.new : RXParamSetupAnsCreator := ⟨false, false, false⟩
+def RXParamSetupAnsCreator.set_channel_ack (self : RXParamSetupAnsCreator) (ack : Bool) : RXParamSetupAnsCreator := { self with channel_ack := ack }
+def RXParamSetupAnsCreator.set_rx2_data_rate_ack (self : RXParamSetupAnsCreator) (ack : Bool) : RXParamSetupAnsCreator := { self with rx2_data_rate_ack := ack }
+def RXParamSetupAnsCreator.set_rx1_data_rate_offset_ack (self : RXParamSetupAnsCreator) (ack : Bool) : RXParamSetupAnsCreator := { self with rx1_data_rate_offset_ack := ack }
+instance : Coe RXParamSetupAnsCreator SerializableMacCommand :=
+  ⟨fun c => ⟨0x05, [Rt.b2i c.channel_ack + 2 * Rt.b2i c.rx2_data_rate_ack + 4 * Rt.b2i c.rx1_data_rate_offset_ack], 1⟩⟩
+structure RXTimingSetupAnsCreator where
+  deriving DecidableEq, Repr
+def RXTimingSetupAnsCreator.new : RXTimingSetupAnsCreator := ⟨⟩
+instance : Coe RXTimingSetupAnsCreator SerializableMacCommand := ⟨fun _ => ⟨0x08, [], 0⟩⟩
+"#;
+const SESSION_MACS_RAW3: &str = r#"/-- what `handle_downlink_macs` calls on `region::Configuration` (macro-dispatched to the plan in the source;
+abstract here).  `&mut self` methods return the region; `Option`-valued results: `none` = a panic inside -/
+class MacRegionOps (ρ : Type) where
+  channel_mask_get : ρ → ChannelMask
+  has_fixed_channel_plan : ρ → Bool
+  channel_dl_update : ρ → Int → Int → Option ((Bool × Bool) × ρ)
+  channel_mask_update : ρ → ChannelMask → Int → ChannelMask → Option (Option Unit × ChannelMask)
+  is_uplink_datarate : ρ → Int → Bool
+  check_tx_power : ρ → Int → Option (Option (Option Int))
+  channel_mask_validate : ρ → ChannelMask → Option DR → Option Bool
+  channel_mask_set : ρ → ChannelMask → ρ
+  handle_new_channel : ρ → Int → Int → Option DataRateRange → Option ((Bool × Bool) × ρ)
+  frequency_valid : ρ → Int → Bool
+  rx1_dr_offset_validate : ρ → Int → Option Int
+  get_datarate : ρ → Int → Option Datarate
+variable {RegionCfg : Type} [MacRegionOps RegionCfg]
+"#;
 
 /// Lean text of the abstract part of `Gen.DynPlanFn`
 const DYN_PLAN_RAW1: &str = r#"/-- `ChannelMask<9>`: its bytes; the bit operations on it are abstract (`MaskFns`) -/
